@@ -990,6 +990,10 @@ Box<ITV>::relation_with(const Constraint& c) const {
             && Poly_Con_Relation::is_included();
         }
       case 1:
+        // The equality 0 == 1 is inconsistent.
+        if (c.is_equality()) {
+          return Poly_Con_Relation::is_disjoint();
+        }
         return Poly_Con_Relation::is_included();
       }
     }
